@@ -146,6 +146,14 @@ def corrupt(rng: random.Random, text: str, others: list[str], svc_names: list[st
             if alt != comps[i]:
                 comps[i] = alt
                 return "case_ref", text[:m.start(1)] + ".".join(comps) + text[m.end(1):]
+    if rng.random() < 0.04:
+        # bytes that are not valid UTF-8 (Latin-1 text pasted into a comment, a literal, an identifier): lone surrogates in the text
+        # are written as the raw bytes 0x80..0xFF
+        b0 = chr(0xDC00 + rng.choice([0x80, 0xa0, 0xb5, 0xe9, 0xff, 0xc3, 0xfe]))
+        frag = rng.choice(["# caf%s" % b0, "uint8 NON_UTF8 = '%s'" % b0, "uint8 na%sve" % b0, "@print '%s%s'" % (b0, b0), b0, "uint8 ok_field  # %s" % b0])
+        lines = text.split("\n")
+        i = rng.randint(0, len(lines))
+        return "non_utf8", "\n".join(lines[:i] + [frag] + lines[i:])
     if own and rng.random() < 0.05:
         # an undefined reference whose leading components repeat names of the referring definition itself
         comps = own.split(".")[:-2]
@@ -237,7 +245,7 @@ class C13(Check):
     TIERS = {"quick": {"runs": 3200, "budget_s": 50}, "thorough": {"runs": 200000, "budget_s": 1200}}
     ASSUMPTIONS = ["bounded magnitude and nesting (pre-filter 'bounded()' in dsim/checks/c13.py): at most three ** per line with literal exponents of "
                    "at most 4 digits, bracket depth <= 12, text <= 12000 characters, numeric literals <= 4500 digits",
-                   "not injected: dangling symlinks and symlinks to files outside the root directory, unreadable files, non-UTF-8 bytes"]
+                   "not injected: dangling symlinks and symlinks to files outside the root directory, unreadable files"]
 
     def generate(self, rng: random.Random, r: int, tier: str) -> dict:
         ws = G.gen_workspace(rng, roots=(1, 2), defs=(2, 6), p_ref=0.6, p_service=0.25, p_const=0.4, p_doc=0.3)
